@@ -40,6 +40,7 @@ class CFG:
             self.g.add_node(n)
         self._next = 3
         self.node_of: dict[int, int] = {}  # id(ast stmt) -> node
+        self.branch_entry: dict[tuple[int, bool], int] = {}
         outs = self._block(fn_node.body, [ENTRY], _Ctx())
         for o in outs:
             self.g.add_edge(o, EXIT)
@@ -85,8 +86,15 @@ class CFG:
             n = self._new(st, "if")
             self._link(preds, n)
             self._may_raise(n, ctx)
-            t = self._block(st.body, [n], ctx)
-            e = self._block(st.orelse, [n], ctx) if st.orelse else [n]
+            # explicit (synthetic) branch entry nodes keep the true and the false edge apart even when an arm is empty
+            tn = self._new(None, "then")
+            en = self._new(None, "else")
+            self.g.add_edge(n, tn, branch=True)
+            self.g.add_edge(n, en, branch=False)
+            self.branch_entry[(n, True)] = tn
+            self.branch_entry[(n, False)] = en
+            t = self._block(st.body, [tn], ctx)
+            e = self._block(st.orelse, [en], ctx) if st.orelse else [en]
             return t + e
         if isinstance(st, (ast.For, ast.AsyncFor, ast.While)):
             n = self._new(st, "loop")
@@ -231,6 +239,21 @@ class CFG:
                 seen.add(y)
                 todo.append(y)
         return seen
+
+    def controls(self, n: int) -> list[tuple[ast.AST, bool]]:
+        """Branch decisions that every path ENTRY -> n takes: [(test expression, required truth value), ...]."""
+        out: list[tuple[ast.AST, bool]] = []
+        for d in sorted(self.nodes(lambda s: isinstance(s, ast.If))):
+            if d == n or not self.dominates(d, n):
+                continue
+            t, f = self.branch_entry[(d, True)], self.branch_entry[(d, False)]
+            via_t = n in self.reachable_from(t, without={d})
+            via_f = n in self.reachable_from(f, without={d})
+            if via_t and not via_f:
+                out.append((self.stmt[d].test, True))
+            elif via_f and not via_t:
+                out.append((self.stmt[d].test, False))
+        return out
 
     def must_pass(self, src: int, dst: int, through: set[int], *, normal_only: bool = False) -> bool:
         """Every path src -> dst crosses a node of `through` (src/dst themselves excluded)."""
